@@ -142,10 +142,6 @@ impl<'a, C: Cx> Gen<'a, C> {
         self.ids.pop().expect("enough ids")
     }
 
-    fn actor_pos(&self, id: char) -> usize {
-        self.h.actors.iter().position(|a| a.id == id).unwrap()
-    }
-
     /// Process `op` on replica `pos`; on success the replica advances.
     fn deliver(&mut self, pos: usize, op: &Op<C>, index: Option<usize>, hostile: bool, stale: bool) -> Outcome<C> {
         let check_unchanged = hostile;
@@ -265,6 +261,16 @@ impl<'a, C: Cx> Gen<'a, C> {
         }
     }
 
+    /// Pick a listed member, biased towards the first entries so that concurrent branches often
+    /// act on the same target.
+    fn pick_listed(&mut self, listed: &[Entry]) -> Entry {
+        if self.rng.chance(0.5) {
+            listed[self.rng.usize_below(listed.len().min(2))]
+        } else {
+            *self.rng.pick(listed)
+        }
+    }
+
     fn all_members(&self) -> Vec<GroupMember<char>> {
         let mut v: Vec<GroupMember<char>> =
             self.h.individuals.iter().map(|i| GroupMember::Individual(*i)).collect();
@@ -299,14 +305,14 @@ impl<'a, C: Cx> Gen<'a, C> {
         }
         // Promote / demote / remove a listed member.
         if !listed.is_empty() {
-            let e = *self.rng.pick(&listed);
+            let e = self.pick_listed(&listed);
             let m = if e.0 { GroupMember::Group(e.1) } else { GroupMember::Individual(e.1) };
             let top = if e.0 { 2 } else { 3 };
             if e.2 < top {
                 let l = self.rng.range(e.2 as u64 + 1, top as u64) as u8;
                 options.push(GroupAction::Promote { member: m, access: access(l, C::generate(self.rng)) });
             }
-            let e = *self.rng.pick(&listed);
+            let e = self.pick_listed(&listed);
             let m = if e.0 { GroupMember::Group(e.1) } else { GroupMember::Individual(e.1) };
             if e.2 > 0 {
                 let l = self.rng.below(e.2 as u64) as u8;
